@@ -642,7 +642,14 @@ def run(rep):
                 'arrays in the array, at-inds and scalar forms; the at-inds form of every kind also with the '
                 'positions as int8/uint8/int16/uint16/int32/uint32/int64 arrays beyond half the type\'s range '
                 '(400 elements; points and lines also 33100), list, negative, empty, read-only, strided, element by '
-                'element against the array form and the scalar form. A case is '
+                'element against the array form and the scalar form; OBJECT HISTORY: for every kind, arrays of 36 '
+                'elements (five subtypes; every other round elements and boxes on the quarter grid) and of 1100 elements '
+                '(three default index pages) are queried after each of: build_sindex() / .sindex / build_sindex(page_size, p) / '
+                'GeoSeries.sindex / GeoSeries.build_sindex / GeoDataFrame.build_sindex / a GeoSeries made of an indexed array / '
+                'earlier queries / bounds computed / slice, reverse, take, copy, pickle, concat, mask of an indexed array / the '
+                'same derived objects indexed afterwards (thorough: also cx on the indexed array), in the whole-array, '
+                'at-positions, scalar and GeoSeries forms, every box in all four corner orders with rotating argument types: '
+                'all answers equal those of a never-touched array of the same elements, which go to the model and the oracle. A case is '
                 'non-trivial when some box separates the elements (some True and some False). '
                 'quick tier: every element of every family is run, against a seeded fraction (1/3 for polylines, '
                 '1/2 otherwise, times rep.scale) of its box batches; thorough tier: all batches for points, '
@@ -876,7 +883,7 @@ def history_stream(rep, acc, tier):
     elements; those go to the Coq model and to the exact oracle.  Small arrays (36 elements, one
     index page or, with page_size <= 4, a tree of several levels) in the five subtypes, and arrays
     of 1100 elements (three default pages of 512)."""
-    t0 = time.time()
+    t0, c0 = time.time(), time.process_time()
     rng = rep.rng
     quick = tier == 'quick'
     for rnd in range(2 if quick else 10):
@@ -935,6 +942,7 @@ def history_stream(rep, acc, tier):
                 _probe(rep, ctx, hist, label, obj, series, pos, [tuple(c / 4 for c in b) for b in boxes],
                        expected, inds, nscalar=3)
     rep.extra['history_seconds'] = round(time.time() - t0, 1)
+    rep.extra['history_cpu_seconds'] = round(time.process_time() - c0, 1)
 
 
 def replay_history(rep, rp):
@@ -955,7 +963,7 @@ def replay_history(rep, rp):
         print('fresh array, box', b, ':', U.pack_np(e) if len(e) > 64 else e.astype(int).tolist())
     ok = True
     if len(els) <= 64:
-        q = 1 if all(float(c).is_integer() for c in G.flat_coords(els) + list(boxes[0])) else 4
+        q = 1 if all(float(c).is_integer() for c in [v for v in G.flat_coords(els) if v is not None] + list(boxes[0])) else 4
         bad = C.coq_mismatches(IMPORTS, f'run_array1_packed {MODEL_FN[kind]}', arr1_ty(kind), 'list (option Z)',
                                [(export(kind, fresh, q), U.boxes_raw([tuple(int(c * q) for c in b) for b in boxes]))],
                                [[C.Some(U.pack_np(e)) for e in expected]])
